@@ -215,6 +215,8 @@ def self_test(ctx, trace_path):
             break
         bad1[j]["bal"][t][u] += 1
     bad2 = ev[:idx] + ev[idx + 1:]
+    end = next((i for i in range(idx + 1, len(ev)) if ev[i]["event"] == "Reset"), len(ev))   # the first trace is enough
+    bad1, bad2 = bad1[:end], bad2[:end - 1]
     ok = True
     for name, tr in (("corrupt", bad1), ("drop", bad2)):
         p = os.path.join(ctx.scratch, "token-selftest-%s.ndjson" % name)
